@@ -450,6 +450,7 @@ impl<'a> UserModel<'a> {
             };
             let ext_updates = self.model.get_external_formula_updates_for_cut(
                 &ext_area,
+                sheet,
                 selected_row,
                 selected_column,
             )?;
